@@ -17,6 +17,10 @@ from oracle import refdap4 as R
 
 LEVEL = "proof"
 
+QV = G.NAMES[:3] + G.QUOTED_ASCII + G.QUOTED_UNICODE
+QG = G.GROUP_NAMES[:2] + G.QUOTED_GROUPS
+QD = G.NAMES[:3] + G.QUOTED_DIMS
+
 BYTE_WITNESS = {"k": "attr", "name": "flag", "type": "Byte", "values": [["text", "007"]]}   # former finding (fix 78a1746)
 
 
@@ -68,14 +72,28 @@ def judge_spec(ctx, fns, spec, text, ds, dump, cls_of=None):
         return
     for path, v in declared:
         fq = R.fqn(path, v["name"])
+        qfq = G.dap_quote(fq) if path else G.dap_quote(v["name"])
         try:
             with warnings.catch_warnings():
                 warnings.simplefilter("ignore")
                 var = ds[fq] if path else ds[v["name"]]
+                qvar = ds[qfq]
         except Exception as e:
             ctx.oracle_fail("declared variable not addressable by its group path", dict(case, var=fq), err_class(e), fq,
-                            size=size)
+                            size=size, cls=cls_of(spec, path, v) if cls_of else None)
             continue
+        if not isinstance(qvar, BaseType):
+            ctx.oracle_fail("declared variable not addressable by its quoted group path", dict(case, var=fq),
+                            type(qvar).__name__, qfq, size=size)
+            continue
+        if var is not qvar:
+            ctx.oracle_fail("declared variable not addressable by its group path (declared names)", dict(case, var=fq),
+                            type(var).__name__, "the variable stored as " + qfq, size=size)
+            var = qvar
+        exp_path = G.dap_quote("/" + "/".join(path)) if path else None
+        if var.attributes.get("path") != exp_path:
+            ctx.oracle_fail("variable carries another group path than the one it is declared in", dict(case, var=fq),
+                            repr(var.attributes.get("path")), repr(exp_path), size=size)
         exp_dt = np.dtype(R.NUMERIC[v["type"]])
         dt = np.dtype(var.dtype)
         if (dt.kind, dt.itemsize) != (exp_dt.kind, exp_dt.itemsize):
@@ -127,7 +145,8 @@ def check_specs(ctx, fns, n, label, **kw):
         tree_cases.append(("dmr-spec-tree %s %s" % (G.hexs(spec["name"]), sx), G.norm_tree_sexp(et), {"spec": spec}))
         # what the spec declares (right-hand side of C11_parse) is what pydap returns, in document order
         vars_cases.append(("dmr-spec-vars " + sx, doc_order_dump(fns, spec, ds, dump), {"spec": spec}))
-        find_cases.append(("dmr-find " + G.xnode_sexp(et), find_dump(fns, spec, ds, dump), {"spec": spec}))
+        find_cases.append(("dmr-find %s (%s)" % (G.xnode_sexp(et), " ".join(G.hexs(k) for k in find_keys(spec))),
+                           find_dump(fns, spec, ds, dump), {"spec": spec}))
         for t in G.layout_tags(spec):
             ctx.tags[label + ":" + t] += 1
         judge_spec(ctx, fns, spec, text, ds, dump)
@@ -142,14 +161,23 @@ def check_specs(ctx, fns, n, label, **kw):
     ctx.correspond("dataset[group path/name] (findVar, C11_addressable)", find_cases)
 
 
+def find_keys(spec):
+    """the declared and the stored spelling of every declared variable's path, document order"""
+    keys = []
+    for p, v in R.walk_vars(spec):
+        key = R.fqn(p, v["name"]) if p else v["name"]
+        keys += [key, G.dap_quote(key)]
+    return keys
+
+
 def find_dump(fns, spec, ds, dump):
-    """dataset[<group path>/<name>] for every declared variable in document order: the key of what comes back"""
+    """dataset[<group path>/<name>] for every declared variable in document order, under its declared and its
+    stored spelling: the stored key of what comes back"""
     if ds is None:
         return dump
     BaseType = fns[3]
     out = "(ok"
-    for p, v in R.walk_vars(spec):
-        key = R.fqn(p, v["name"]) if p else v["name"]
+    for key in find_keys(spec):
         try:
             with warnings.catch_warnings():
                 warnings.simplefilter("ignore")
@@ -171,7 +199,7 @@ def doc_order_dump(fns, spec, ds, dump):
         by_key.setdefault(G.var_key(v), []).append(v)
     out = "(ok"
     for p, v in R.walk_vars(spec):
-        key = R.fqn(p, v["name"]) if p else v["name"]
+        key = G.dap_quote(R.fqn(p, v["name"]) if p else v["name"])
         got = by_key.get(key, [])
         out += " " + (G.rec_str(got[0]) if len(got) == 1 else "(%s x%d)" % (G.hexs(key), len(got)))
     if sum(len(x) for x in by_key.values()) != len(list(R.walk_vars(spec))):
@@ -337,6 +365,9 @@ def explore(ctx, fns, tier):
     k = 1 if tier == "quick" else 12
     check_specs(ctx, fns, 250 * k, "flat", groups=False)
     check_specs(ctx, fns, 700 * k, "groups")
+    # names that DAP quoting changes (blank, brackets, `&`, `.`, `%`, non-ASCII) for variables, groups and dimensions
+    check_specs(ctx, fns, 120 * k, "quoted-flat", groups=False, var_names=QV, dim_names=QD)
+    check_specs(ctx, fns, 280 * k, "quoted-groups", var_names=QV, group_names=QG, dim_names=QD)
     check_attrs(ctx, fns, 600 * k)
     check_server(ctx, fns, 150 * k)
 
